@@ -55,6 +55,14 @@ def gen(ctx):
         if i % 5 == 0:
             q, kind = G.mutate_ast(rng, p)
             yield Case("CMP", "%s - -" % G.hx(G.render(q)), tags=("mutant",))
+    # declarations whose initial value is not a literal get no DEF instruction: the DEF preamble is then shorter than the
+    # declaration list, and the event table must still tile the instructions right after it
+    for decls in ("(Report (minrtt unset))", "(Report (a 0) (minrtt unset) (b 1))", "(Report (a 0)) (c foo)", "(c foo) (Report (a 0)) (d 2)",
+                  "(Report (volatile m unset) (a 0)) (c1 x) (c2 3)", "(Report.legacy unset) (Report (a 0))", "(c Cwnd)"):
+        for evs in ("(when true (report))", "(when true (:= Cwnd 1) (fallthrough)) (when (> Micros 10) (report))",
+                    "(when (< 1 2) (:= Rate (+ 1 2))) (when true (:= Cwnd 3) (report)) (when false (report))"):
+            yield Case("CMP", "%s - -" % G.hx("(def %s) %s" % (decls, evs)), tags=("nonliteral-init",))
+            yield Case("CMP", "%s %s -" % (G.hx("(def %s) %s" % (decls, evs)), "%s=5" % G.hx("c")), tags=("nonliteral-init",))
     for shape in "lrb":
         for k in range(0, 20 if ctx.thorough else 12):
             yield Case("CMP", "%s - -" % G.hx("(def (Report (x 0))) (when true (:= Report.x %s))" % nest(shape, k)), tags=("limit-tmp",))
